@@ -100,7 +100,8 @@ Proof.
   eexists. split; [vm_compute; reflexivity|].
   assert (Hr : real_wf (bs "2.5")) by (exists false, (bs "2"), (bs "5"); repeat split; try reflexivity; discriminate).
   split; [reflexivity|]. split.
-  { cbn [LoadsMultiMixed.parts_ok ex_parts_x]. split; [|split; [|exact I]].
+  { cbn [LoadsMultiMixed.parts_ok ex_parts_x].
+    split; [|split; [intro K; discriminate K|split; [|split; [intros _; vm_compute; lia|exact I]]]].
     - unfold LoadsMultiMixed.part_ok. cbn [mp_xref]. split; [left; reflexivity|]. split; [left; reflexivity|].
       match goal with |- spell_wf (ODict ?d) _ /\ _ =>
         let v := eval vm_compute in d in assert (Hd : d = v) by (vm_compute; reflexivity); rewrite Hd end.
@@ -119,12 +120,7 @@ Proof.
       * split; [constructor; [intros []|constructor]|]. split; [reflexivity|exact I].
       * split; [lia|]. split; reflexivity. }
   split; [vm_compute; discriminate|]. split; [repeat split; reflexivity|].
-  split; [vm_compute; discriminate|]. split; [vm_compute; discriminate|]. split; [vm_compute; reflexivity|].
-  intros lastp xs Hl Hxs. cbn in Hl. inversion Hl; subst lastp. clear Hl.
-  assert (Hall : forallb (fun xs => (9 + length (LoadsTableProofs.sx_mid ECRLF 1 xs 2 ECR) <=? 25)%nat) (range_N 0 600) = true)
-    by (vm_compute; reflexivity).
-  rewrite forallb_forall in Hall. apply Nat.leb_le. apply (Hall xs). apply LoadsTableProofs.range_N_In.
-  match type of Hxs with _ <= ?b => let v := eval vm_compute in b in change b with v in Hxs end. lia.
+  split; [vm_compute; discriminate|]. split; [vm_compute; discriminate|]. vm_compute; reflexivity.
 Qed.
 
 (* ---------- the same chain with a FILTER CHAIN on the cross-reference stream: ASCII85 around Flate with a PNG predictor ---------- *)
@@ -145,7 +141,8 @@ Proof.
   eexists. split; [vm_compute; reflexivity|].
   assert (Hr : real_wf (bs "2.5")) by (exists false, (bs "2"), (bs "5"); repeat split; try reflexivity; discriminate).
   split; [reflexivity|]. split.
-  { cbn [LoadsMultiMixed.parts_ok ex_parts_f]. split; [|split; [|exact I]].
+  { cbn [LoadsMultiMixed.parts_ok ex_parts_f].
+    split; [|split; [intro K; discriminate K|split; [|split; [intros _; vm_compute; lia|exact I]]]].
     - unfold LoadsMultiMixed.part_ok. cbn [mp_xref]. split.
       { right. split; [reflexivity|]. split; [reflexivity|]. split; [vm_compute; discriminate|reflexivity]. }
       split; [left; reflexivity|].
@@ -172,12 +169,7 @@ Proof.
       * split; [constructor; [intros []|constructor]|]. split; [reflexivity|exact I].
       * split; [lia|]. split; reflexivity. }
   split; [vm_compute; discriminate|]. split; [repeat split; reflexivity|].
-  split; [vm_compute; discriminate|]. split; [vm_compute; discriminate|]. split; [vm_compute; reflexivity|].
-  intros lastp xs Hl Hxs. cbn in Hl. inversion Hl; subst lastp. clear Hl.
-  assert (Hall : forallb (fun xs => (9 + length (LoadsTableProofs.sx_mid ECRLF 1 xs 2 ECR) <=? 25)%nat) (range_N 0 900) = true)
-    by (vm_compute; reflexivity).
-  rewrite forallb_forall in Hall. apply Nat.leb_le. apply (Hall xs). apply LoadsTableProofs.range_N_In.
-  match type of Hxs with _ <= ?b => let v := eval vm_compute in b in change b with v in Hxs end. lia.
+  split; [vm_compute; discriminate|]. split; [vm_compute; discriminate|]. vm_compute; reflexivity.
 Qed.
 
 (* ---------- a Length reference ACROSS parts: the stream (object 3) is in part 1, its Length "4 0 R" names the integer object 4
@@ -206,7 +198,8 @@ Proof.
   eexists. split; [vm_compute; reflexivity|].
   assert (Hr : real_wf (bs "2.5")) by (exists false, (bs "2"), (bs "5"); repeat split; try reflexivity; discriminate).
   split; [reflexivity|]. split.
-  { cbn [LoadsMultiMixed.parts_ok ex_parts_rl]. split; [|split; [|exact I]].
+  { cbn [LoadsMultiMixed.parts_ok ex_parts_rl].
+    split; [|split; [intro K; discriminate K|split; [|split; [intros _; vm_compute; lia|exact I]]]].
     - unfold LoadsMultiMixed.part_ok. cbn [mp_xref]. split.
       { right. split; [reflexivity|]. split; [reflexivity|]. split; [vm_compute; discriminate|reflexivity]. }
       split; [left; reflexivity|].
@@ -238,10 +231,5 @@ Proof.
              | |- _ \/ _ => right; exists 4, 0; split; [reflexivity|]; right; right; left; reflexivity
              end. }
   split; [vm_compute; discriminate|]. split; [repeat split; reflexivity|].
-  split; [vm_compute; discriminate|]. split; [vm_compute; discriminate|]. split; [vm_compute; reflexivity|].
-  intros lastp xs Hl Hxs. cbn in Hl. inversion Hl; subst lastp. clear Hl.
-  assert (Hall : forallb (fun xs => (9 + length (LoadsTableProofs.sx_mid ECRLF 1 xs 2 ECR) <=? 25)%nat) (range_N 0 900) = true)
-    by (vm_compute; reflexivity).
-  rewrite forallb_forall in Hall. apply Nat.leb_le. apply (Hall xs). apply LoadsTableProofs.range_N_In.
-  match type of Hxs with _ <= ?b => let v := eval vm_compute in b in change b with v in Hxs end. lia.
+  split; [vm_compute; discriminate|]. split; [vm_compute; discriminate|]. vm_compute; reflexivity.
 Qed.
